@@ -466,6 +466,9 @@ static int vk_epoll_wait_common(const char *name, int epfd, struct epoll_event *
 	vk_trace("W%d %s max=%d to=%lld I=%s G=%s", vk_nwait, name, maxevents, timeout_ns, ibuf, gbuf);
 
 	if (is_eintr(vk_nwait)) {
+		/* the interruption arrives after half of a finite timeout has elapsed */
+		if (timeout_ns > 0)
+			vk_clock += timeout_ns / 2;
 		vk_trace("R eintr clk=%lld", vk_clock);
 		errno = EINTR;
 		return -1;
@@ -651,6 +654,8 @@ static int vk_poll_common(const char *name, struct pollfd *pfds, nfds_t nfds, lo
 	vk_trace("W%d %s n=%d to=%lld I=%s G=%s", vk_nwait, name, (int)nfds, timeout_ns, ibuf, gbuf);
 
 	if (is_eintr(vk_nwait)) {
+		if (timeout_ns > 0)
+			vk_clock += timeout_ns / 2;
 		vk_trace("R eintr clk=%lld", vk_clock);
 		errno = EINTR;
 		return -1;
